@@ -114,7 +114,8 @@ func (d *AV1Depacketizer) Unmarshal(payload []byte) (buff []byte, err error) {
 		offset += lengthField
 
 		if isLast && obuY {
-			d.buffer = obuBuffer
+			// keep a copy: obuBuffer may point into the caller's payload
+			d.buffer = append([]byte{}, obuBuffer...)
 
 			break
 		}
